@@ -50,9 +50,17 @@ func extractValidationConstraints(field *protogen.Field, schema *base.Schema) {
 	case protoreflect.Int32Kind, protoreflect.Sint32Kind, protoreflect.Sfixed32Kind,
 		protoreflect.Uint32Kind, protoreflect.Fixed32Kind:
 		applyInt32Constraints(fieldConstraints, schema)
+		applyIntegerRules[uint32](fieldConstraints.GetUint32(), schema)
+		applyIntegerRules[int32](fieldConstraints.GetSint32(), schema)
+		applyIntegerRules[uint32](fieldConstraints.GetFixed32(), schema)
+		applyIntegerRules[int32](fieldConstraints.GetSfixed32(), schema)
 	case protoreflect.Int64Kind, protoreflect.Sint64Kind, protoreflect.Sfixed64Kind,
 		protoreflect.Uint64Kind, protoreflect.Fixed64Kind:
 		applyInt64Constraints(fieldConstraints, schema)
+		applyIntegerRules[uint64](fieldConstraints.GetUint64(), schema)
+		applyIntegerRules[int64](fieldConstraints.GetSint64(), schema)
+		applyIntegerRules[uint64](fieldConstraints.GetFixed64(), schema)
+		applyIntegerRules[int64](fieldConstraints.GetSfixed64(), schema)
 	case protoreflect.FloatKind:
 		applyFloatConstraints(fieldConstraints, schema)
 	case protoreflect.DoubleKind:
@@ -251,6 +259,52 @@ func applyInt64Constraints(constraints *validate.FieldRules, schema *base.Schema
 				Kind:  yaml.ScalarNode,
 				Value: strconv.FormatInt(value, 10),
 			})
+		}
+	}
+}
+
+// integerRules is the part shared by the rules of the unsigned, zigzag and fixed-width integer kinds
+// (UInt32Rules, SInt32Rules, Fixed32Rules, SFixed32Rules and their 64-bit counterparts).
+type integerRules[T int32 | uint32 | int64 | uint64] interface {
+	HasGte() bool
+	GetGte() T
+	HasGt() bool
+	GetGt() T
+	HasLte() bool
+	GetLte() T
+	HasLt() bool
+	GetLt() T
+	HasConst() bool
+	GetConst() T
+	GetIn() []T
+}
+
+// applyIntegerRules applies the rules of one of those kinds the way applyInt32Constraints and
+// applyInt64Constraints do for int32 and int64. The getters of a nil rule set report nothing.
+func applyIntegerRules[T int32 | uint32 | int64 | uint64](rules integerRules[T], schema *base.Schema) {
+	if rules.HasGte() {
+		minValue := float64(rules.GetGte())
+		schema.Minimum = &minValue
+	}
+	if rules.HasGt() {
+		minValue := float64(rules.GetGt())
+		schema.ExclusiveMinimum = &base.DynamicValue[bool, float64]{N: 1, B: minValue}
+	}
+	if rules.HasLte() {
+		maxValue := float64(rules.GetLte())
+		schema.Maximum = &maxValue
+	}
+	if rules.HasLt() {
+		maxValue := float64(rules.GetLt())
+		schema.ExclusiveMaximum = &base.DynamicValue[bool, float64]{N: 1, B: maxValue}
+	}
+	if rules.HasConst() {
+		schema.Const = &yaml.Node{Kind: yaml.ScalarNode, Value: fmt.Sprint(rules.GetConst())}
+	}
+	if len(rules.GetIn()) > 0 {
+		schema.Enum = make([]*yaml.Node, 0, len(rules.GetIn()))
+		for _, value := range rules.GetIn() {
+			schema.Enum = append(schema.Enum, &yaml.Node{Kind: yaml.ScalarNode, Value: fmt.Sprint(value)})
 		}
 	}
 }
